@@ -1,0 +1,51 @@
+//! Verification hooks, compiled only with `--cfg folo_verif` (set by the external verification
+//! harness). With the guard off nothing in this module, and none of the `#[cfg(folo_verif)]`
+//! statements that call into it, is compiled.
+//!
+//! Hook H5: named yield points. The harness installs two function pointers; until it does, every
+//! hook is a no-op and the crate behaves exactly as without the guard.
+//!
+//! * `point(name)` - the calling thread is about to perform the named step.
+//! * `block_until(name, ready)` - the calling thread is about to perform a blocking acquisition
+//!   (a lock); `ready` reports without blocking whether the acquisition would succeed right now,
+//!   so that a deterministic scheduler can treat the thread as blocked instead of letting it
+//!   block in the kernel while every other thread is parked.
+
+use std::sync::{OnceLock, TryLockError};
+
+/// The function pointers a harness installs.
+#[derive(Clone, Copy, Debug)]
+pub struct Hooks {
+    /// Called before a named step.
+    pub point: fn(&'static str),
+    /// Called before a named blocking acquisition; must return only once `ready()` returned true
+    /// and no other thread could have run in between.
+    pub block_until: fn(&'static str, &dyn Fn() -> bool),
+}
+
+static HOOKS: OnceLock<Hooks> = OnceLock::new();
+
+/// Installs the hooks for the whole process. Only the first call has an effect.
+pub fn install(hooks: Hooks) {
+    let _previous = HOOKS.set(hooks);
+}
+
+#[inline]
+pub(crate) fn point(name: &'static str) {
+    if let Some(hooks) = HOOKS.get() {
+        (hooks.point)(name);
+    }
+}
+
+#[inline]
+pub(crate) fn block_until(name: &'static str, ready: &dyn Fn() -> bool) {
+    if let Some(hooks) = HOOKS.get() {
+        (hooks.block_until)(name, ready);
+    }
+}
+
+/// True unless a `try_read()` / `try_write()` result says the lock is currently held by someone
+/// else. The guard (if any) is dropped immediately - this is only ever used as a `ready` probe.
+pub(crate) fn lock_is_free<G>(attempt: Result<G, TryLockError<G>>) -> bool {
+    !matches!(attempt, Err(TryLockError::WouldBlock))
+}
